@@ -16,6 +16,7 @@ TEXT, CLASS, STYLE, PROPS, FULL_PROPS, HYDRATE_EVENTS, NEED_PATCH = 1, 2, 4, 8, 
 NAMES = {'class': 'class', 'style': 'style', 'key': 'key', 'ref': 'ref', 'onClick': 'onClick', 'onFoo': 'onFoo', 'onUpd': 'onUpdate:modelValue',
          'plain': 'title', 'ns': 'xlink:href', 'on': 'on', 'onclick': 'onclick', 'nativeOn': 'nativeOn'}
 VKINDS = {'s': '="st"', 'b': '', 'c': '={{1}}', 'ca': '={{[1, "a"]}}', 'co': '={{{{a: 1, "b": [2]}}}}', 'u': '={{undefined}}',
+          'sup': '={{super.t}}', 'supc': '={{super["t"]}}', 'supa': '={{["x", super.k]}}', 'this': '={{this.t}}', 'par': '={{(1)}}', 'tsas': '={{"a" as string}}', 'tpl0': '={{`abc`}}', 'neg': '={{-1}}',
           'd': '={{v1}}', 'dm': '={{v2.x}}', 'da': '={{[1, v3]}}', 'do': '={{{{a: v4}}}}', 'dck': '={{{{[v1]: 1}}}}', 'dckt': '={{{{[`k-${{v3}}`]: 1}}}}', 'cckl': '={{{{["lit"]: 1, [`t`]: 2}}}}', 'dsh': '={{{{v2}}}}', 'dtpl': '={{`a${{v3}}`}}'}
 SPECIAL = {'spread': '{{...s1}}', 'spreadO': '{{...{{id: v1}}}}', 'vmodel': 'v-model={{v1}}', 'vmodelC': 'v-model={{[v1, v2]}}', 'vmodelS': 'v-model={{[v1, "foo"]}}',
            'dir': 'v-foo={{v2}}', 'show': 'v-show={{v3}}', 'vhtml': 'v-html={{v4}}', 'vtext': 'v-text="t"', 'onobj': 'on={{o1}}'}
@@ -41,10 +42,18 @@ def make_skeleton(spec):
             parts.append(item_src(it))
     host = spec['host']
     kids = spec.get('kids', '')
-    src = PRELUDE + 'const _0 = <%s %s>%s</%s>;\n' % (host, ' '.join(parts), kids, host)
+    jsx = '<%s %s>%s</%s>' % (host, ' '.join(parts), kids, host)
+    tsx = False
+    if any(it.split('/')[-1] in ('sup', 'supc', 'supa', 'this') for it in spec['attrs']):
+        # `super.x` / `this.x` need a method of a derived class around them
+        src = PRELUDE + 'class K extends Object {{ m() {{ const _0 = %s; return _0; }} }}\n' % jsx
+    else:
+        src = PRELUDE + 'const _0 = %s;\n' % jsx
+    if any(it.split('/')[-1] == 'tsas' for it in spec['attrs']):
+        tsx = True
     opts = {'optimize': True, 'merge_props': 'sym', 'transform_on': 'sym'}
     opts.update(spec.get('opts', {}))
-    return Skeleton('c13#%s|%s|%s' % (host, ','.join(spec['attrs']), kids), src, leaves, opts, meta={'family': 'c13/' + host})
+    return Skeleton('c13#%s|%s|%s' % (host, ','.join(spec['attrs']), kids), src, leaves, opts, tsx=tsx, meta={'family': 'c13/' + host})
 
 
 def extra_constraints(skel):
@@ -87,8 +96,12 @@ def may_change(e):
             else:
                 return True
         return False
-    if denote.is_expr(e, 'Paren'):
+    if denote.is_expr(e, 'Paren') or e.variant in ('TsAs', 'TsNonNull', 'TsSatisfies', 'TsTypeAssertion', 'TsConstAssertion'):
         return may_change(e.fields[0].get('expr'))
+    if denote.is_expr(e, 'Tpl'):
+        return len(e.fields[0].get('exprs')) > 0 and True
+    if denote.is_expr(e, 'Unary') and e.fields[0].get('op').variant in ('Minus', 'Plus', 'Bang', 'Tilde', 'Void', 'TypeOf'):
+        return may_change(e.fields[0].get('arg'))
     return True
 
 
@@ -320,6 +333,10 @@ def jobs(tier):
         out.append({'host': h, 'attrs': []})
         for it in pal:
             out.append({'host': h, 'attrs': [it]})
+        for k in ('sup', 'supc', 'supa', 'this', 'par', 'tsas', 'tpl0', 'neg'):
+            out.append({'host': h, 'attrs': ['plain/' + k, 'ref/d']})
+            out.append({'host': h, 'attrs': ['class/' + k, 'plain/d']})
+            out.append({'host': h, 'attrs': ['plain/' + k, 'dir']})
         for k in ('dck', 'dckt', 'cckl', 'dsh', 'dtpl', 'u', 'ca', 'da', 'do', 'dm'):
             out.append({'host': h, 'attrs': ['plain/' + k]})
             out.append({'host': h, 'attrs': ['class/' + k, 'plain/d']})
